@@ -61,6 +61,7 @@ def interpreter_flags(ctx, n_cases):
 
 
 def run(ctx: Ctx, lines=LINES):
+    rules.MEMBER_SPELLING = not lines        # C01 reads verdicts only; C03 (lines=True) reads the message texts
     interpreter_flags(ctx, 12 if ctx.quick else 120)
     jobs_small = []
     for t in range(len(rules.SMALL_TREES)):
@@ -123,7 +124,14 @@ def replay(ctx: Ctx, path: str) -> int:
         if spec.get(k) is not None:
             spec[k] = (spec[k][0], spec[k][1])
     case = dict(nodes=c["nodes"], edges=[tuple(e) for e in c["edges"]], specs=[spec], mode=c.get("mode", "direct"))
-    out = rules.check_rule_cases([case], use_oracle=True, lines=(PID != "C01"))
+    rules.MEMBER_SPELLING = PID == "C01"
+    out = dict(violations=[], disagreements=[])
+    for _ in range(12):        # the argument spellings rotate with every rule built: one full rotation
+        o = rules.check_rule_cases([case], use_oracle=True, lines=(PID != "C01"))
+        out["violations"] += o["violations"]
+        out["disagreements"] += o["disagreements"]
+        if out["violations"]:
+            break
     print(json.dumps({"violations": [v[1] for v in out["violations"]], "disagreements": [d[1] for d in out["disagreements"]]}, indent=1))
     if out["violations"] or out["disagreements"]:
         print(f"VIOLATION property={ctx.pid} replay={path}")
